@@ -222,8 +222,6 @@ def tableOK (C : Certs) : Bool := initOK C && St.all.all (stateOK C)
 
 /-! ### the collector: computes the certificates (not trusted) -/
 
-def opsOfCode : Code St → List (List (Op St) × Cont St) := Code.leaves
-
 /-- states that may be pushed: `push s` targets, states with a `pushCur` leaf, and their callers -/
 def hasPushCur (st : St) : Bool := (code st).leaves.any fun l => l.1.contains .pushCur
 def pushTargets : List St :=
